@@ -44,6 +44,7 @@ func verifNode(k int, ctx interface{}, args []Attrib) (Attrib, error) {
 func init() {
 	verifHarnesses["VerifC03Tree"] = VerifC03Tree
 	verifHarnesses["VerifC03Default"] = VerifC03Default
+	verifHarnesses["VerifC03ErrClause"] = VerifC03ErrClause
 	verifHarnesses["VerifC06Error"] = VerifC06Error
 }
 
@@ -150,6 +151,32 @@ func VerifC03Tree() {
 		verifAssert(len(verifTrace) == verifFailAt+1, "no action runs after a failing action")
 		pe, ok := err.(*parseError.Error)
 		verifAssert(ok && pe != nil && pe.Err == verifTheErr, "the returned error carries the action's error")
+		verifAssert(res == nil, "no result with an error")
+		verifCover("action failed")
+	}
+	verifCover("end")
+}
+
+// VerifC03ErrClause: the error clause alone, for any grammar (also those with error
+// alternatives, where a syntax-error recovery machinery exists that must NOT be used for a
+// failing action): once an action returned an error no further action runs and Parse returns
+// a non-nil error carrying it.
+func VerifC03ErrClause() {
+	n := verifParam("N", 3)
+	sc, _ := verifTokens(n)
+	verifCurScan = sc
+	verifTrace = nil
+	verifFailAt = verifNondetInt("failat")
+	verifAssume(0 <= verifFailAt && verifFailAt <= 3*n+3)
+	p := NewParser()
+	res, err := p.Parse(sc)
+	if verifFailAt < len(verifTrace) {
+		verifAssert(err != nil, "a failing action makes Parse fail")
+		verifAssert(len(verifTrace) == verifFailAt+1, "no action runs after a failing action")
+		if err != nil {
+			pe, ok := err.(*parseError.Error)
+			verifAssert(ok && pe != nil && pe.Err == verifTheErr, "the returned error carries the action's error")
+		}
 		verifAssert(res == nil, "no result with an error")
 		verifCover("action failed")
 	}
